@@ -550,6 +550,87 @@ fn part_rebuild(k: &Kind, cal: &Calendar, n: i64, f: &F, route: &str, overflow: 
 }
 
 // ------------------------------------------------------------------------------------------------
+// part: with (a value's own field applied to itself is the identity, in every calendar)
+
+fn part_with(k: &Kind, n: i64, p: &PlainDate, f: &F) -> Outcome {
+    let id = k.id;
+    let mut o = Outcome::pass();
+    let mut judged = 0;
+    let code = MonthCode::from_str(&f.code).ok();
+    let variants: [(&str, PartialDate); 3] = [
+        ("day", PartialDate::new().with_day(Some(f.d))),
+        ("monthCode", PartialDate::new().with_month_code(code)),
+        ("year", PartialDate::new().with_year(Some(f.y))),
+    ];
+    for (name, pd) in variants {
+        if name == "monthCode" && code.is_none() {
+            continue;
+        }
+        match guard(|| p.with(pd, None)) {
+            Err(pn) => return o.fail(panic_sig(id, n, &pn), "no panic", pn),
+            Ok(Ok(q)) => {
+                judged += 1;
+                if ymd_of(&q).n() != n || q.calendar().identifier() != id {
+                    return o.fail(format!("C16/with/{id}/{name}/own-field-changes-the-date"), format!("{:?} in {id}", Ymd::from_n(n)), format!("{:?} in {} from {f:?}", ymd_of(&q), q.calendar().identifier()));
+                }
+            }
+            // `with` refuses the record in calendars where the fields cannot be completed (era calendars: the era of
+            // the receiver is not carried over; an existing finding of the rebuild part): not judged here
+            Ok(Err(_)) => {}
+        }
+    }
+    if judged == 0 {
+        o.unjudged = true;
+        return o.class("with-unjudged:record-refused");
+    }
+    o.class("with-judged")
+}
+
+// ------------------------------------------------------------------------------------------------
+// part: year-month built from the calendar fields of the date describes that calendar month
+
+fn part_year_month(k: &Kind, cal: &Calendar, n: i64, f: &F) -> Outcome {
+    use temporal_rs::PlainYearMonth;
+    let id = k.id;
+    let mut o = Outcome::pass();
+    let mut judged = 0;
+    for route in ["year+code", "era+code"] {
+        if route == "era+code" && (f.era.is_none() || f.ey.is_none()) {
+            continue;
+        }
+        let Some(pd) = partial_for(cal, f, route, None) else { continue };
+        // a year-month record has no day
+        let pd = pd.with_day(None);
+        match guard(|| PlainYearMonth::from_partial(pd, ArithmeticOverflow::Constrain)) {
+            Err(pn) => return o.fail(panic_sig(id, n, &pn), "no panic", pn),
+            Ok(Ok(ym)) => {
+                judged += 1;
+                let got = guard(|| (ym.year(), ym.month_code().as_str().to_string()));
+                match got {
+                    Ok((y, code)) => {
+                        if y != f.y || code != f.code {
+                            if id == "ethioaa" && route == "year+code" && y == f.y - 5500 && code == f.code {
+                                // same root cause as C16/rebuild/ethioaa/by-year/year-read-as-era-year, seen through
+                                // PlainYearMonth::from_partial
+                                return o.fail("C16/yearmonth/ethioaa/by-year/year-read-as-era-year", format!("year {} month code {}", f.y, f.code), format!("year {y} month code {code}"));
+                            }
+                            return o.fail(format!("C16/yearmonth/{id}/{route}/describes-another-month"), format!("year {} month code {}", f.y, f.code), format!("year {y} month code {code} (ISO {}-{:02})", ym.iso_year(), ym.iso_month()));
+                        }
+                    }
+                    Err(pn) => return o.fail(panic_sig(id, n, &pn), "no panic", pn),
+                }
+            }
+            Ok(Err(_)) => {}
+        }
+    }
+    if judged == 0 {
+        o.unjudged = true;
+        return o.class("yearmonth-unjudged:record-refused");
+    }
+    o.class("yearmonth-judged")
+}
+
+// ------------------------------------------------------------------------------------------------
 // part: alias
 
 fn part_alias(k: &Kind, cal: &Calendar, n: i64, f: &F, alias: &str) -> Outcome {
@@ -667,6 +748,26 @@ impl SubCheck for RebuildSub {
     }
     fn eval(&self, c: &RebuildCase) -> Outcome {
         with_date(&c.cal, c.n, |k, cal, _p, f| part_rebuild(k, cal, c.n, f, &c.route, &c.overflow))
+    }
+}
+pub struct WithSub;
+impl SubCheck for WithSub {
+    type Case = DateCase;
+    fn name(&self) -> &'static str {
+        "with"
+    }
+    fn eval(&self, c: &DateCase) -> Outcome {
+        with_date(&c.cal, c.n, |k, _cal, p, f| part_with(k, c.n, p, f))
+    }
+}
+pub struct YearMonthSub;
+impl SubCheck for YearMonthSub {
+    type Case = DateCase;
+    fn name(&self) -> &'static str {
+        "yearmonth"
+    }
+    fn eval(&self, c: &DateCase) -> Outcome {
+        with_date(&c.cal, c.n, |k, cal, _p, f| part_year_month(k, cal, c.n, f))
     }
 }
 pub struct AliasSub;
@@ -1113,6 +1214,21 @@ fn eval_item(ctx: &Ctx, out: &mut LaneOut, k: &'static Kind, cal: &Calendar, inf
             fails += record_part(ctx, out, "alias", case, o, true, &classes) as u64;
         }
     }
+    // with / year-month (ISO itself is C17's / C18's subject)
+    if id != "iso8601" && (all || n.rem_euclid(3) == 0) {
+        let o = match guard(|| part_with(k, n, &p, &f)) {
+            Ok(o) => o,
+            Err(pn) => panic_outcome(id, n, pn),
+        };
+        parts += 1;
+        fails += record_part(ctx, out, "with", dcase.clone(), o, nt, &classes) as u64;
+        let o = match guard(|| part_year_month(k, cal, n, &f)) {
+            Ok(o) => o,
+            Err(pn) => panic_outcome(id, n, pn),
+        };
+        parts += 1;
+        fails += record_part(ctx, out, "yearmonth", dcase.clone(), o, nt, &classes) as u64;
+    }
     let cc = out.per_cal.get_mut(id).unwrap();
     cc.part_cases += parts;
     cc.failing_part_cases += fails;
@@ -1177,7 +1293,7 @@ fn push_window(v: &mut Vec<i64>, centre: i64, w: i64) {
 }
 
 pub fn run(ctx: &mut Ctx) {
-    ctx.rule = "per calendar (17 non-ISO kinds + iso8601): ISO days = dense windows around every era start found by scanning the calendar's own era() (fine scan -1000..2300, coarse scan of the whole range), around the first day of year 1 / eraYear 1 (bisection on year()), around 0001-01-01, 1970-01-01, both range ends, around leap months and new years found by walking months (chinese/dangi/hebrew), + an even stride over the whole range + generated days (whole range / ISO years -10000..10000 / 1800..2200; for chinese, dangi, islamic, islamic-umalqura additionally many generated days in 1905..2095 where the library has precomputed data and conversions are cheap); budgets scaled by measured conversion cost (see cases_per_calendar). Each date is judged in parts: fields, succ, rebuild x 4 routes x 2 overflow modes, alias x every alias of the reported era; every part is one case. non-trivial = date within 40 days of an era start / of a calendar new year / of a leap month, or calendar year < 1, or (alias part) alias != reported era name; ident: mixed-case variants. Panics are caught per part and carry the signature C16/panic/<calendar>/<far|core>/<location>; 'core' (ISO years -10000..10000) is never listed.".into();
+    ctx.rule = "per calendar (17 non-ISO kinds + iso8601): ISO days = dense windows around every era start found by scanning the calendar's own era() (fine scan -1000..2300, coarse scan of the whole range), around the first day of year 1 / eraYear 1 (bisection on year()), around 0001-01-01, 1970-01-01, both range ends, around leap months and new years found by walking months (chinese/dangi/hebrew), + an even stride over the whole range + generated days (whole range / ISO years -10000..10000 / 1800..2200; for chinese, dangi, islamic, islamic-umalqura additionally many generated days in 1905..2095 where the library has precomputed data and conversions are cheap); budgets scaled by measured conversion cost (see cases_per_calendar). Each date is judged in parts: fields, succ, rebuild x 4 routes x 2 overflow modes, alias x every alias of the reported era, with (the date's own day / month code / year applied to itself must not move it) and yearmonth (a PlainYearMonth built from the date's calendar year and month code must report that year and month code); every part is one case. non-trivial = date within 40 days of an era start / of a calendar new year / of a leap month, or calendar year < 1, or (alias part) alias != reported era name; ident: mixed-case variants. Panics are caught per part and carry the signature C16/panic/<calendar>/<far|core>/<location>; 'core' (ISO years -10000..10000) is never listed.".into();
     ctx.assumptions = vec![
         "oracle: ISO round trip + successor invariant; month ordinal in 13-month lunisolar years re-derived by walking the year's months with the crate's own day_of_year/days_in_month (which the successor law checks locally)".into(),
         "era alias table written from the 2024 intl-era-monthcode era table (not from era.rs); aliases are compared with the era name the calendar itself reports; when that name fails identically the alias case is unjudged (the rebuild part reports the failure)".into(),
@@ -1414,6 +1530,8 @@ pub fn replay(ctx: &mut Ctx, sub: &str, case: &Value) -> bool {
         "succ" => ctx.replay_case(&SuccSub, case),
         "rebuild" => ctx.replay_case(&RebuildSub, case),
         "alias" => ctx.replay_case(&AliasSub, case),
+        "with" => ctx.replay_case(&WithSub, case),
+        "yearmonth" => ctx.replay_case(&YearMonthSub, case),
         "ident" => ctx.replay_case(&IdentSub, case),
         _ => false,
     }
